@@ -253,7 +253,8 @@ def c08(pid, tier, replay):
     sets = [["ABS_HAT0X"], ["ABS_Z"], ["ABS_RX"], ["ABS_GAS"], ["ABS_HAT0X", "ABS_RX"]]
     jobs = axis_jobs("akey", sets, tier, cfgmode="toml") + akeymap_jobs(tier)
     def drv(seed, t):
-        return with_toml(devdrivers.c08_batches(seed, t) + devdrivers.akey_mapping_batches(seed, t) + devdrivers.two_handler_key_batches(seed, t))
+        return with_toml(devdrivers.c08_batches(seed, t) + devdrivers.akey_mapping_batches(seed, t) + devdrivers.two_handler_key_batches(seed, t)
+                         + devdrivers.unnamed_axis_batches(seed, t))
     return device_check(pid, tier, replay, ["C08_", "C01_"], jobs, drivers=[drv], assumptions=ASSUME_DEV[:2] + [
         "configurations are rendered as TOML and parsed by the real config.ParseData (the anchor includes parser.go:261-290)"])
 
@@ -1165,6 +1166,16 @@ def c17(pid, tier, replay):
                 w.append({"ev": "midiin", "msg": [0x80 + ch, 60, 0] if ch % 2 else [0x90 + ch, 60, 0]})
             far.append(w + [{"ev": "disconnect"}])
         groups.append([{"cfg": d["cfg"], "colors": LED_COLORS, "layout": LED_LAYOUTS[0], "walks": far}])
+        # a controller with LEDs that are not keys and that the device treats specially (the light bar of the one keyboard
+        # model it knows by name is kept dark): the keys' LEDs - the first of the sequence included - show what they always show
+        hx = ["KEY_A", "KEY_F1", "KEY_F2", "KEY_S"] + ["other:RGB Strip %d" % i for i in range(1, 19)] + ["KEY_D", "KEY_ESC"]
+        whx = []
+        for k in ("KEY_F1", "KEY_F2"):
+            w = [{"ev": "press", "k": "KEY_A"}, {"ev": "release", "k": "KEY_A"}]
+            for _ in range(12):
+                w += [{"ev": "press", "k": k}, {"ev": "release", "k": k}]
+            whx.append(w + [{"ev": "press", "k": "KEY_S"}, {"ev": "disconnect"}])
+        groups.append([{"cfg": d["cfg"], "colors": LED_COLORS, "layout": hx, "ctrl": "HyperX Alloy Elite 2 (HP)", "walks": whx}])
         # a configuration with a single mapping: the first mapping is also the last one, both mapping keys are at their end
         import copy as _copy
         one_map = _copy.deepcopy(d["cfg"])
@@ -1305,7 +1316,16 @@ def lifecycle_batches(seed, tier):
     # MIDI input keeps arriving (buffered channel, as the fan-out provides) across the end of the event stream
     flood = [{"cfg": cfg, "colors": LED_COLORS, "layout": layout, "nowait": True, "async_midi": True, "flood": True,
               "walks": [walk(rng.randrange(2, 12), rng.choice([0, 2]), sleep_before_disc=rng.choice([0, 5, 300])) for _ in range(max(3, n // 2))]}]
-    return [[b] for b in waited + nowait + stress + search + flood]
+    # a slow MIDI port: panic's burst of 129 messages takes longer than an LED refresh cycle, so the LED goroutine asks for
+    # the device's locks while panic is still writing (and panic asks for the MIDI-input tracker's lock afterwards)
+    def panic_walk(k):
+        w = [{"ev": "press", "k": "KEY_Z"}, {"ev": "midiin", "msg": [0x90, 40, 100]}]
+        for _ in range(k):
+            w += [{"ev": "press", "k": "KEY_ESC"}, {"ev": "release", "k": "KEY_ESC"}, {"ev": "midiin", "msg": [0x91, 38, 90]}]
+        return w + [{"ev": "disconnect"}]
+    slow = [{"cfg": cfg, "colors": LED_COLORS, "layout": layout, "slow_out_us": us, "walks": [panic_walk(3 if tier == "quick" else 10)]}
+            for us in (150, 400)]
+    return [[b] for b in waited + nowait + stress + search + flood + slow]
 
 
 def c16(pid, tier, replay):
